@@ -152,7 +152,7 @@ impl<T> SyncSender<T> {
 //@ enditem
 //@ close
 impl<T> Channel<T> {
-//@ slice src/sources/channel.rs / impl EventSource for Channel<T> / fn process_events :: closure 1 props=C04,C02 name=Channel::process_events::drain_closure
+//@ slice src/sources/channel.rs / impl EventSource for Channel<T> / fn process_events :: closure 1 props=C04,C02,C12 name=Channel::process_events::drain_closure
 //@ sig
 /// S1 slice: the body of the closure Channel::process_events passes to its PingSource (it mutates captured locals, so
 /// Verus cannot take it as a closure). Captured `capacity`, `receiver`, `callback` become parameters; the captured
@@ -191,6 +191,8 @@ fn drain_closure<C: FnMut(Event<T>, &mut ())>(capacity: usize, receiver: &mpsc::
             got.len() == lit.index@,
         invariant
             max >= 1, may_recv(receiver),
+            // C12 (no spinning): the batch is larger than the queue's bound (up to the fairness cap), so a bounded queue that was full when the loop woke up is SEEN empty and the channel does not re-arm itself for nothing
+            max > capacity || max >= MAX_EVENTS_CHECK, /*@props C12,C04,C02*/
             forall|e: Event<T>, m: &mut ()| #[trigger] call_ensures(callback, (e, m), ()) ==> w_event_delivered(e),
             // C04 (must-call side): every message taken out of the queue has been handed to the callback (a received message
             // is never dropped), and Closed has been delivered before `disconnected` is reported
